@@ -102,6 +102,33 @@ def run(chk: Check, proj: Project) -> None:
                lambda sub: __import__('djc_sa.rules.C16', fromlist=['x']).s1(sub, proj, proj.mod("component_media")), only=lambda o: "_setup_lazy_media_resolve" in o.construct)
     chk.borrow("S24", "a page delivers its components' scripts also after the media cache lost entries (flush, expiry, eviction): whether a script is cached is asked of the backend on every render, so a lost script is stored again - a module-level 'known cached' memo makes every later page render fail instead (shared with C19-S1)",
                lambda sub: C19.s1(sub, proj, w), only=lambda o: "_is_script_in_cache" in o.construct)
+    chk.rule("S25", "two Media files are the same file only if their URLs are EQUAL: the key under which _postprocess_media_tags remembers a tag is the URL extracted from the tag, unchanged (no cut at `?` / `#`, no case folding, no normalisation) - `css?family=Roboto` and `css?family=Lato` are two stylesheets, and a key that forgets the query delivers the second one 0 times")
+    pm_ = dm_.func("_postprocess_media_tags")
+    chk.analysed(fkey(dm_, pm_))
+    keyv = next((norm(t.slice) for st_ in ast.walk(pm_) if isinstance(st_, ast.Assign) for t in st_.targets if isinstance(t, ast.Subscript) and isinstance(t.slice, ast.Name)), None)
+    if keyv is None:
+        chk.undecided("S25", "dependencies:_postprocess_media_tags:key-is-the-url", dm_.loc(pm_), "the dict store keyed by the URL was not found")
+    else:
+        def _plain(e: ast.AST, depth: int = 0) -> bool:
+            if depth > 4:
+                return False
+            if isinstance(e, ast.Name):
+                ds = [v for _s, v in assignments(pm_, e.id) if v is not None]
+                return bool(ds) and all(_plain(d, depth + 1) for d in ds)
+            if isinstance(e, ast.Call) and norm(e.func) == "cast" and len(e.args) == 2:
+                return _plain(e.args[1], depth + 1)
+            if isinstance(e, ast.Call) and isinstance(e.func, ast.Attribute) and e.func.attr == "group":
+                return True
+            if isinstance(e, ast.Subscript) and isinstance(e.slice, ast.Constant) and isinstance(e.value, ast.Name):
+                return True
+            if isinstance(e, ast.IfExp):
+                return _plain(e.body, depth + 1) and (isinstance(e.orelse, ast.Constant) or _plain(e.orelse, depth + 1))
+            return False
+        okk = _plain(ast.Name(id=keyv, ctx=ast.Load()))
+        kd = [v for _s, v in assignments(pm_, keyv) if v is not None]
+        chk.ob("S25", "dependencies:_postprocess_media_tags:key-is-the-url", dm_.loc(kd[0]) if kd else dm_.loc(pm_), okk,
+               f"`{keyv}` is the regex group of the tag's src / href attribute, unchanged" if okk else
+               f"`{keyv} = {short(kd[0]) if kd else '?'}` transforms the URL before it is used as the dedupe key: two different files whose URLs agree after that transformation (same path, different query string) are taken for one, and the second is delivered 0 times in document mode and missing from toLoadCssTags / toLoadJsTags in fragment mode")
     chk.rule("S20", "twin-kind argument agreement, package-wide: an argument that names one script kind (`css_input_hash`, `.js_file`, 'css') is bound to a callee parameter / field of the same kind - the js / css twins have the same types, so a swap compiles and passes every single-kind test (shared with C19-S14, C16)")
     generic.kind_named_args(chk, "S20", proj, w.cg, ["component", "dependencies", "component_media", "components.dynamic"], floor=12)
     chk.borrow("S19", "every collected tag / URL reaches the output under its OWN kind: kind flow (js / css lattice) through _prepare_tags_and_urls, _process_dep_declarations, _gen_exec_script and render_dependencies - a Media(js=..) / Media(css=..) list, a ScriptType argument, a wire key or a placeholder replacement never receives the other kind, and no kind-carrying part of a helper's result is dropped (shared with C19-S11)",
